@@ -1068,7 +1068,7 @@ class CircuitSerializer(serializer.Serializer):
                 duration=arg_func_langs.arg_from_proto(
                     operation_proto.wait_gate_with_unit.duration
                 ),
-                qid_shape=operation_proto.wait_gate_with_unit.qid_shape,
+                qid_shape=tuple(operation_proto.wait_gate_with_unit.qid_shape),
             )
             op = wg(*qubits)
         else:
